@@ -15,7 +15,10 @@ Model of `ComponentSpecification.resolveArguments` (python/experiment/model/grap
 
 A reference is abstracted to what the method reads from a `DataReference`: its two spellings
 (`absoluteReference`, `relativeReference`), whether the relative spelling denotes it from the consumer
-(`stageIndex is None or stageIndex == consumer stage`), its kind and its resolved value.
+(`stageIndex is None or stageIndex == consumer stage`), its kind and its resolved value.  The resolved value
+is itself computed by the model (`Source.value?`, the part of `DataReference.resolve` that the method
+observes): a path, the blank-joined paths of all loop instances, the contents of the referenced file minus
+its final newline characters (`outputValue`), or the blank-joined per-instance contents (`loopInstanceValue`).
 -/
 namespace St4sd.ArgSubst
 open St4sd.Str
@@ -142,6 +145,92 @@ def stepOld (st : S × List S) (r : Ref) : S × List S :=
 def resolveOld (refs : List Ref) (args : S) : Result :=
   let st := refs.foldl stepOld (args, [])
   { out := st.1, unused := st.2, unresolved := unresolved st.1 }
+
+/-! ## The value of a reference (`DataReference.resolve` as far as `resolveArguments` observes it) -/
+
+/-- `s.rstrip('\n')`: the text without its final newline characters; nothing else is removed. -/
+def dropTrailingNewlines : S → S
+  | [] => []
+  | c :: s =>
+    match dropTrailingNewlines s with
+    | [] => if c = '\n' then [] else [c]
+    | d :: r => c :: d :: r
+
+/-- worker of `universalNewlines`; the flag says that the previous character was a carriage return -/
+def unlAux : Bool → S → S
+  | _, [] => []
+  | prevCR, c :: s =>
+    if c = '\r' then '\n' :: unlAux true s
+    else if c = '\n' ∧ prevCR = true then unlAux false s
+    else c :: unlAux false s
+
+/-- what `open(path, 'r').read()` does to line terminators (`newline=None`): `\r\n` and a lone `\r` are read as
+`\n`.  Only the `:loopoutput` branch reads in text mode; `:output` reads bytes and decodes them. -/
+def universalNewlines (s : S) : S := unlAux false s
+
+/-- value of an `:output` reference whose file holds `contents` (decoded bytes): `contents.rstrip('\n')` -/
+def outputValue (contents : S) : S := dropTrailingNewlines contents
+
+/-- value contributed by one loop instance to a `:loopoutput` reference: text-mode read, then `rstrip('\n')` -/
+def loopInstanceValue (contents : S) : S := dropTrailingNewlines (universalNewlines contents)
+
+/-- What `DataReference.resolve` looks at for one declared reference.
+* `path p`   — `:ref` (or any path method): the resolved path;
+* `paths ps` — `:loopref`: the paths of all loop instances of the placeholder, in iteration order;
+* `file c`   — `:output`: the decoded contents of the one referenced file (`none`: it does not exist yet);
+* `files cs` — `:loopoutput`: the contents of the referenced file of every loop instance, in iteration order;
+* `failed`   — `resolve` raised `InternalInconsistencyError` and `ignoreErrors` was set. -/
+inductive Source
+  | path (p : S)
+  | paths (ps : List S)
+  | file (c : Option S)
+  | files (cs : List (Option S))
+  | failed
+  deriving DecidableEq, Repr
+
+def countMissing : List (Option S) → Nat
+  | [] => 0
+  | none :: cs => countMissing cs + 1
+  | some _ :: cs => countMissing cs
+
+def present : List (Option S) → List S
+  | [] => []
+  | none :: cs => present cs
+  | some c :: cs => c :: present cs
+
+/-- `reference_value` after the `try` block of `resolveArguments` (`none` = Python `None`).  A missing
+`:output` file gives `""`; a `:loopoutput` with exactly one missing instance file gives `""`
+(`DataReferenceFilesDoNotExistError` with one entry), with several it is an `InternalInconsistencyError`
+(→ `None` under `ignoreErrors`, and `None or ""` is substituted). -/
+def Source.value? : Source → Option S
+  | .path p => some p
+  | .paths ps => some (join [' '] ps)
+  | .file none => some []
+  | .file (some c) => some (outputValue c)
+  | .files cs =>
+    match countMissing cs with
+    | 0 => some (join [' '] ((present cs).map loopInstanceValue))
+    | 1 => some []
+    | _ => none
+  | .failed => none
+
+/-- a declared reference together with what its value is computed from -/
+structure Decl where
+  abs : S
+  rel : S
+  relActive : Bool
+  kind : Kind
+  source : Source
+  deriving DecidableEq, Repr
+
+def Decl.toRef (d : Decl) : Ref :=
+  { abs := d.abs, rel := d.rel, relActive := d.relActive, kind := d.kind, value := d.source.value? }
+
+/-- repaired `resolveArguments` with the reference values computed by the model of `DataReference.resolve` -/
+def resolveD (decls : List Decl) (args : S) : Result := resolve (decls.map Decl.toRef) args
+
+/-- the pre-repair algorithm on the same input (kept for the witness / the driver's `old` answer) -/
+def resolveOldD (decls : List Decl) (args : S) : Result := resolveOld (decls.map Decl.toRef) args
 
 /-- decidable form of: the dictionary does not depend on the insertion order (equal spellings carry equal values) -/
 def functionalB (es : List (S × S)) : Bool :=
